@@ -1,5 +1,8 @@
 use drvlib::*;
 
+#[global_allocator]
+static ALLOC: drvlib::counting_alloc::Counting = drvlib::counting_alloc::Counting;
+
 fn main() {
     let args: Vec<String> = std::env::args().collect();
     let seed: u64 = std::env::var("VERIF_SEED").ok().and_then(|s| s.parse().ok()).unwrap_or(0);
@@ -12,6 +15,7 @@ fn main() {
         "prove_component" => components::prove(&mut ctx, &args[2..]),
         "verify_labels" => protocol::run_verify_labels(&mut ctx, &args[2..]),
         "decode" => protocol::run_decode(&mut ctx, &args[2..]),
+        "decode_alloc" => protocol::run_decode_alloc(&mut ctx, &args[2..]),
         "decode_probe" => protocol::run_decode_probe(&mut ctx, &args[2..]),
         "verify" => protocol::run_verify(&mut ctx, &args[2..]),
         "kernels" => kernels::run(&mut ctx, &args[2..]),
